@@ -22,8 +22,10 @@
      "head_in_place"        write the head file itself instead of a temp file
      "rename_before_close"  rename the temp file over the head before it was closed
 
-   Scope (see DESIGN 5/C14): log files are deleted (externally / by the retention policy) only while the reader is
-   down; deletion under a running reader is C13's subject.  Timestamps of the writer increase strictly. *)
+   Scope (see DESIGN 5/C14): timestamps of the writer increase strictly.  Log files are deleted (externally / by the
+   retention policy) while the reader is down; with "delete_up" in Acts also under the running reader (which then keeps
+   reading the unlinked inode it has open), and with "refresh" in Acts the application calls refresh() itself - the
+   documented way of a reader constructed with autorefresh=False (AutoRef = {}) to learn about new and vanished files. *)
 EXTENDS RollLog
 
 CONSTANTS MaxCrashes, MaxSaves
@@ -141,10 +143,16 @@ Restart ==
              /\ UNCHANGED <<fsz, tsz, dir, data, nino, recsz, clock, closed, wfile, total, pos, destroyed, taintf, maxused,
                             ndel, nreo, npos, head, tmp, hpc, hbuf, prevp, newp, delivered, ncrash, nsave>>
 
-(* a log file disappears while the reader is down *)
+(* a log file disappears: while the reader is down, or ("delete_up") at any moment *)
 HDelete(t) ==
-  /\ ~up /\ Delete(t)
+  /\ (~up \/ "delete_up" \in Acts) /\ Delete(t)
   /\ hev' = HEv("delete", TRUE)
+  /\ UNCHANGED <<head, tmp, hpc, hbuf, up, prevp, newp, delivered, ncrash, nsave>>
+
+(* the application calls refresh() (l.453-462); not in the middle of write_head (same thread) *)
+HRefresh ==
+  /\ up /\ hpc = "idle" /\ Refresh(R)
+  /\ hev' = HEv("refresh", TRUE)
   /\ UNCHANGED <<head, tmp, hpc, hbuf, up, prevp, newp, delivered, ncrash, nsave>>
 
 HLabels ==
@@ -152,6 +160,7 @@ HLabels ==
   \cup {Lab(a, R, 0, 0) : a \in {"read", "readblock", "s_open", "s_write", "s_close", "s_rename", "restart"}}
   \cup {Lab("crash", R, h, 0) : h \in 0..2}
   \cup {Lab("delete", "env", t, 0) : t \in TsAll}
+  \cup {Lab("refresh", R, 0, 0)}
 HNextL(l) ==
   CASE l.a = "write"     -> HWrite(l.x)
     [] l.a = "read"      -> HRead(FALSE)
@@ -163,6 +172,7 @@ HNextL(l) ==
     [] l.a = "crash"     -> Crash(l.x)
     [] l.a = "restart"   -> Restart
     [] l.a = "delete"    -> "delete" \in Acts /\ HDelete(l.x)
+    [] l.a = "refresh"   -> "refresh" \in Acts /\ HRefresh
 HNext == \E l \in HLabels : HNextL(l)
 HSpec == HInit /\ [][HNext]_allvars
 
